@@ -256,5 +256,5 @@ def gbernsen(f, se, contrast_threshold, gthresh):
     fmin = rank_filter(f, se, 0)
     fptp = fmax - fmin
     fmean = fmax/2. + fmin/2. # Do not use (fmax + fmin) as that may overflow
-    return np.choose(fptp < contrast_threshold, (fmean < gthresh, fmean > f))
+    return np.choose(fptp < contrast_threshold, (fmean > f, fmean < gthresh))
 
